@@ -53,9 +53,11 @@ def fingerprint(o: Dict[str, Any]) -> Dict[str, Any]:
 
 
 def main() -> int:
+    replay = os.environ.get("VERIF_REPLAY")
+    # (core.Check wipes replays/<id>: read the replay file first)
+    replay_doc = core.read_json(pathlib.Path(replay)) if replay else None
     ck = core.Check("C04", "model_checking")
     rnd = random.Random(ck.seed)
-    replay = os.environ.get("VERIF_REPLAY")
 
     if not replay:
         # ---- M ----------------------------------------------------------------------------------
@@ -73,7 +75,7 @@ def main() -> int:
     job: Dict[str, Any] = {"planted": [], "fixtures": [], "texts": []}
     n_cases = 0
     if replay:
-        rp = core.read_json(pathlib.Path(replay))
+        rp = replay_doc
         c = rp["case"]
         if c.get("text") is not None:
             job["texts"].append({"text": c["text"], "case": c.get("case"), "smoke": str(c.get("src", "")).startswith("smoke")})
